@@ -27,6 +27,9 @@ META = dict(
         "semantics); canonical re-tokenisation safety (chop_tokens); prompt healing arithmetic"
     ),
 )
+META["explanation"] += (
+    " Added after the independent seeding rounds 2-3: " 'R5 the uniqueness scan behind the expansion of a forced 0xFF: over all Option<token id> slots, Some only for single-token ranges and only if the slot is None or equal, a conflict result is final, expansion only on the Some arm. R6 token healing (chop_tokens) returns the accumulated token_len of the removed tokens.'
+)
 
 
 def _opt_variant(cb, rv):
